@@ -730,30 +730,41 @@ class Vector():
 		# =====================================================================
 		# FAST-PATH TYPE CHECK / PROMOTION
 		# =====================================================================
-		if updates:
+		if updates and self._dtype is not None:
 			new_values = [v for _, v in updates]
 
-			# Object dtype accepts any type - skip validation
-			if self._dtype is not None and self._dtype.kind is not object:
-				incompatible = None
-				for val in new_values:
-					try:
-						validate_scalar(val, self._dtype)
-					except TypeError:
-						incompatible = val
-						break
-
-				if incompatible is not None:
-					required_dtype = infer_dtype([incompatible])
-					try:
-						self._promote(required_dtype.kind)
-						underlying = self._underlying
-					except SerifTypeError:
+			# `target` is the dtype the vector must have to hold EVERY new value.
+			# It is computed without touching self, so a rejected value leaves the
+			# vector exactly as it was.
+			target = self._dtype
+			for val in new_values:
+				if val is None:
+					# None is always accepted; it makes the column nullable
+					target = target.with_nullable(True)
+					continue
+				if target.kind is object:
+					# Object dtype accepts any type - skip validation
+					continue
+				try:
+					validate_scalar(val, target)
+				except TypeError:
+					# Value is incompatible - a wider kind is required
+					required_dtype = infer_dtype([val])
+					if not self._can_promote(target.kind, required_dtype.kind):
 						raise SerifTypeError(
 							f"Cannot set {required_dtype.kind.__name__} in "
 							f"{self._dtype.kind.__name__} vector. "
 							f"Promotion not supported."
 						)
+					target = DataType(required_dtype.kind, nullable=target.nullable)
+
+			# Every value fits `target`: nothing below can fail any more
+			if target.kind is not self._dtype.kind:
+				self._promote(target.kind)
+				underlying = self._underlying
+			if target.nullable and not self._dtype.nullable:
+				self._dtype = self._dtype.with_nullable(True)
+
 		# =====================================================================
 		# MUTATE — copy-on-write + fingerprint updates
 		# =====================================================================
@@ -1035,6 +1046,19 @@ class Vector():
 	def __rpow__(self, other):
 		return self._elementwise_operation(other, _reverse_pow, '__rpow__', '**')
 
+
+	@staticmethod
+	def _can_promote(kind, target_kind):
+		""" True if _promote() supports taking a vector of `kind` to `target_kind` """
+		if kind is target_kind:
+			return True
+		if target_kind is float:
+			return kind is int
+		if target_kind is complex:
+			return kind in (int, float)
+		if target_kind is datetime:
+			return kind is date
+		return False
 
 	def _promote(self, new_dtype):
 		""" Check if a vector can change data type (int -> float, float -> complex) """
